@@ -1,5 +1,6 @@
 SPECIFICATION TSpec
 CONSTANTS FifoCancellable = TRUE
+  WaitCancellable = TRUE
   MaxCancel = 0
   Mode = "trace"
 INVARIANTS TypeOK WakeSound
